@@ -30,7 +30,8 @@ def run_case(df, meta):
     from zepid.causal.doublyrobust import AIPTW, TMLE
     out = {'errors': {}}
     otype = meta['outcome']
-    dist = {'binary': None, 'normal': 'gaussian', 'poisson': 'poisson'}[otype]
+    # both documented spellings of the Gaussian family are exercised ('gaussian' and its alias 'normal')
+    dist = {'binary': None, 'normal': ('gaussian' if meta['n'] % 2 else 'normal'), 'poisson': 'poisson'}[otype]
     satL, satAL = meta['sat_L'], meta['sat_AL']
 
     def guard(name, fn):
@@ -104,7 +105,7 @@ def run_case(df, meta):
             return
         # continuous_bound (default 0.0005) deliberately moves the extreme outcomes inwards; the identity is
         # about the estimator without that documented truncation, so it is set to a value nothing reaches
-        tm = TMLE(df, 'A', 'Y', continuous_bound=1e-10)
+        tm = TMLE(df, 'A', 'Y', continuous_bound=1e-10) if otype != 'binary' else TMLE(df, 'A', 'Y')
         tm.exposure_model(satL, print_results=False)
         tm.outcome_model(satAL, print_results=False)
         tm.fit()
@@ -255,7 +256,7 @@ def check(ctx, fails, df, meta, out, r, snaps_ok):
 
 def run(ctx):
     fails = []
-    n = 9 if ctx.quick else 90
+    n = 18 if ctx.quick else 120
     cases = []
     for i in range(n):
         otype = ['binary', 'normal', 'poisson'][i % 3]
